@@ -7,7 +7,7 @@ TIER="$1"; SEED="$2"; shift 2
 HERE="$(cd "$(dirname "$(dirname "$(realpath "$0")")")" && pwd)"
 cd "$HERE"
 if [ -n "${VP_RUN_REPO:-}" ]; then
-  sed -i "s|path = \"/repo\"|path = \"$VP_RUN_REPO\"|" harness/Cargo.toml harness-nostd/Cargo.toml fuzz/Cargo.toml
+  sed -i "s|path = \"/repo\"|path = \"$VP_RUN_REPO\"|" harness/Cargo.toml harness-nostd/Cargo.toml harness-nolegacy/Cargo.toml fuzz/Cargo.toml
 fi
 export VERIF_ROOT="$HERE"
 for ID in "$@"; do
